@@ -371,8 +371,8 @@ fault of any kind, no fuel exhaustion — and its final state carries the verdic
 of every group of `Spec.attempt`.
 
 Full statement aimed at (`compile_correct`, NOT proved): the same for every tree `syntax.Parse` can produce, i.e.
-`InFrag 4` extended by balancing groups, `UpdateBumpalong` and ECMAScript boundaries, both directions.  Proved:
-the tiers 1–3 below (left to right; no `Loop`/`Lazyloop`, `Ref`, conditionals, lookbehind). -/
+`InFrag 8` extended by balancing groups, both directions.  Proved: the tiers 1–4 below (left to right; general loops
+included; no `UpdateBumpalong`, `Ref`, conditionals, lookbehind). -/
 section compiler
 open RegexVerif.Compile RegexVerif.Writer RegexVerif.Generated.Opcodes
 
@@ -395,7 +395,7 @@ theorem compile_correct_T3 (ti : TreeInfo) (t : GoNode) (TPx : TP) (env : VM.Env
     (hrel : EnvRel TPx (codeFromTree (mainCfg ti) t).2.sets env se) (hi : i ≤ se.n) (hlen : se.n ≤ 2147483647) :
     ∃ s0 s n, VM.init (emit ti t) (i : Int) = .ok s0 ∧
       (∀ fuel, n ≤ fuel → (VM.run (emit ti t) env fuel s0).1 = .done s) ∧ Agrees ti se pat i s :=
-  compile_correct_upto ti t TPx env se pat i hfrag hwf hpat hrel hi hlen
+  compile_correct_upto 3 (by decide) ti t TPx env se pat i hfrag hwf hpat hrel hi hlen (by omega)
 
 /-- tier 2 (no Atomic, no lookaround): a special case of tier 3 -/
 theorem compile_correct_T2 (ti : TreeInfo) (t : GoNode) (TPx : TP) (env : VM.Env) (se : Spec.Env) (pat : Pat) (i : Nat)
@@ -429,10 +429,49 @@ theorem run_done_unique (p : Code.Prog) (env : VM.Env) (s0 s s' : VM.VMState) (f
       | stop t => rw [hst] at h h'; simp at h h'; rw [← h, ← h']
       | next t chk => rw [hst] at h h'; simp at h h'; exact ih t f' h h'
 
-/-- **the scan**: under the hypotheses of `compile_correct_T3` for every start position, "the first position in scan
-    order at which the compiled program matches" is `Spec.find`: the specification's find succeeds exactly when some
-    attempt of the program in scan order ends matched, and the position it reports is the first such one.  (The
-    engine's `scan` is this naive scan up to the accelerations of C03.) -/
+/-- **the scan**, for any proved tier `k`: under the hypotheses of `compile_correct_upto` for every start position, "the
+    first position in scan order at which the compiled program matches" is `Spec.find`: the specification's find
+    succeeds exactly when some attempt of the program in scan order ends matched, and the position it reports is the
+    first such one.  (The engine's `scan` is this naive scan up to the accelerations of C03.) -/
+theorem compile_correct_find_upto (k : Nat) (hk : k ≤ maxTier) (ti : TreeInfo) (t : GoNode) (TPx : TP) (env : VM.Env)
+    (se : Spec.Env) (pat : Pat)
+    (start : Nat) (hfrag : InFrag k TPx ti t = true) (hwf : treeWf ti t = true)
+    (hpat : toPatRoot TPx false t = some pat) (hrel : EnvRel TPx (codeFromTree (mainCfg ti) t).2.sets env se)
+    (hlen : se.n ≤ 2147483647) (hlenS : 4 ≤ k → se.n < 2147483647) (st : St) :
+    Spec.find se pat false start = some st ↔
+      ∃ (before : List Nat) (i : Nat) (after : List Nat), scanOrder false start se.n = before ++ i :: after ∧
+        (∃ s0 s n, VM.init (emit ti t) (i : Int) = .ok s0 ∧
+          (∀ fuel, n ≤ fuel → (VM.run (emit ti t) env fuel s0).1 = .done s) ∧ VM.matched s = true ∧
+          s.textpos = (st.pos : Int) ∧ CapRep (slotOf ti) (capsize ti) s.cap st.caps ∧
+          Spec.attempt se pat false i = some st) ∧
+        ∀ j ∈ before, ∃ s0 s n, VM.init (emit ti t) (j : Int) = .ok s0 ∧
+          (∀ fuel, n ≤ fuel → (VM.run (emit ti t) env fuel s0).1 = .done s) ∧ VM.matched s = false := by
+  have hatt := fun j (hj : j ≤ se.n) => compile_correct_upto k hk ti t TPx env se pat j hfrag hwf hpat hrel hj hlen hlenS
+  rw [find_eq_some_iff]
+  have hpos : ∀ j ∈ scanOrder false start se.n, j ≤ se.n := fun j hj => ((mem_scanOrder_ltr start se.n j).mp hj).2
+  constructor
+  · rintro ⟨before, i, after, hso, hat, hbef⟩
+    refine ⟨before, i, after, hso, ?_, ?_⟩
+    · obtain ⟨s0, s, n, h1, h2, hag⟩ := hatt i (hpos i (by rw [hso]; simp))
+      exact ⟨s0, s, n, h1, h2, by rw [hag.verdict, hat]; rfl, hag.pos st hat, hag.caps st hat, hat⟩
+    · intro j hj
+      obtain ⟨s0, s, n, h1, h2, hag⟩ := hatt j (hpos j (by rw [hso]; simp [hj]))
+      exact ⟨s0, s, n, h1, h2, by rw [hag.verdict, hbef j hj]; rfl⟩
+  · rintro ⟨before, i, after, hso, ⟨_, _, _, _, _, _, _, _, hat⟩, hbef⟩
+    refine ⟨before, i, after, hso, hat, ?_⟩
+    intro j hj
+    obtain ⟨s0, s, n, h1, h2, hm⟩ := hbef j hj
+    obtain ⟨s0', s', n', h1', h2', hag⟩ := hatt j (hpos j (by rw [hso]; simp [hj]))
+    have hs0 : s0 = s0' := by rw [h1] at h1'; exact Except.ok.inj h1'
+    subst hs0
+    have hss : s = s' := run_done_unique _ env s0 s s' _ _ (h2 (max n n') (by omega)) (h2' (max n n') (by omega))
+    subst hss
+    rw [hag.verdict] at hm
+    cases hatt' : Spec.attempt se pat false j with
+    | none => rfl
+    | some x => rw [hatt'] at hm; simp at hm
+
+/-- the scan on the fragment of tier 3 (texts up to `MaxInt32` runes) -/
 theorem compile_correct_find_T3 (ti : TreeInfo) (t : GoNode) (TPx : TP) (env : VM.Env) (se : Spec.Env) (pat : Pat)
     (start : Nat) (hfrag : InFrag 3 TPx ti t = true) (hwf : treeWf ti t = true)
     (hpat : toPatRoot TPx false t = some pat) (hrel : EnvRel TPx (codeFromTree (mainCfg ti) t).2.sets env se)
@@ -444,33 +483,21 @@ theorem compile_correct_find_T3 (ti : TreeInfo) (t : GoNode) (TPx : TP) (env : V
           s.textpos = (st.pos : Int) ∧ CapRep (slotOf ti) (capsize ti) s.cap st.caps ∧
           Spec.attempt se pat false i = some st) ∧
         ∀ j ∈ before, ∃ s0 s n, VM.init (emit ti t) (j : Int) = .ok s0 ∧
-          (∀ fuel, n ≤ fuel → (VM.run (emit ti t) env fuel s0).1 = .done s) ∧ VM.matched s = false := by
-  rw [find_eq_some_iff]
-  have hpos : ∀ j ∈ scanOrder false start se.n, j ≤ se.n := fun j hj => ((mem_scanOrder_ltr start se.n j).mp hj).2
-  constructor
-  · rintro ⟨before, i, after, hso, hat, hbef⟩
-    refine ⟨before, i, after, hso, ?_, ?_⟩
-    · obtain ⟨s0, s, n, h1, h2, hag⟩ := compile_correct_T3 ti t TPx env se pat i hfrag hwf hpat hrel
-        (hpos i (by rw [hso]; simp)) hlen
-      exact ⟨s0, s, n, h1, h2, by rw [hag.verdict, hat]; rfl, hag.pos st hat, hag.caps st hat, hat⟩
-    · intro j hj
-      obtain ⟨s0, s, n, h1, h2, hag⟩ := compile_correct_T3 ti t TPx env se pat j hfrag hwf hpat hrel
-        (hpos j (by rw [hso]; simp [hj])) hlen
-      exact ⟨s0, s, n, h1, h2, by rw [hag.verdict, hbef j hj]; rfl⟩
-  · rintro ⟨before, i, after, hso, ⟨_, _, _, _, _, _, _, _, hat⟩, hbef⟩
-    refine ⟨before, i, after, hso, hat, ?_⟩
-    intro j hj
-    obtain ⟨s0, s, n, h1, h2, hm⟩ := hbef j hj
-    obtain ⟨s0', s', n', h1', h2', hag⟩ := compile_correct_T3 ti t TPx env se pat j hfrag hwf hpat hrel
-      (hpos j (by rw [hso]; simp [hj])) hlen
-    have hs0 : s0 = s0' := by rw [h1] at h1'; exact Except.ok.inj h1'
-    subst hs0
-    have hss : s = s' := run_done_unique _ env s0 s s' _ _ (h2 (max n n') (by omega)) (h2' (max n n') (by omega))
-    subst hss
-    rw [hag.verdict] at hm
-    cases hatt : Spec.attempt se pat false j with
-    | none => rfl
-    | some x => rw [hatt] at hm; simp at hm
+          (∀ fuel, n ≤ fuel → (VM.run (emit ti t) env fuel s0).1 = .done s) ∧ VM.matched s = false :=
+  compile_correct_find_upto 3 (by decide) ti t TPx env se pat start hfrag hwf hpat hrel hlen (by omega) st
+
+/-- **`compile_correct_T4a`** — tier 4 = tier 3 + the general loops `Loop` / `Lazyloop` around ANY body of the fragment
+    (`Setmark|Nullmark … Branchmark|Lazybranchmark`; counted: `Setcount|Nullcount … Branchcount|Lazybranchcount`, all
+    `|Back` and `|Back2` cases), the interpreter's empty-iteration rule included: a body that can match the empty
+    string is allowed, and the iteration that does not move ends the loop exactly as `Spec.iter` says
+    (`st'.pos == st.pos && lo ≤ cnt + 1`).  Same conclusion as `compile_correct_T3`; the text must be strictly shorter
+    than `MaxInt32` runes (an unbounded loop with a minimum `≥ 2` counts its iterations up to `MaxInt32`). -/
+theorem compile_correct_T4a (ti : TreeInfo) (t : GoNode) (TPx : TP) (env : VM.Env) (se : Spec.Env) (pat : Pat) (i : Nat)
+    (hfrag : InFrag 4 TPx ti t = true) (hwf : treeWf ti t = true) (hpat : toPatRoot TPx false t = some pat)
+    (hrel : EnvRel TPx (codeFromTree (mainCfg ti) t).2.sets env se) (hi : i ≤ se.n) (hlen : se.n < 2147483647) :
+    ∃ s0 s n, VM.init (emit ti t) (i : Int) = .ok s0 ∧
+      (∀ fuel, n ≤ fuel → (VM.run (emit ti t) env fuel s0).1 = .done s) ∧ Agrees ti se pat i s :=
+  compile_correct_upto 4 (by decide) ti t TPx env se pat i hfrag hwf hpat hrel hi (by omega) (fun _ => hlen)
 
 /-! ### non-vacuity (compiler correctness): four concrete trees inside the fragments, the hypotheses of the theorems
 met, and both sides of the conclusion evaluated -/
@@ -522,8 +549,43 @@ example : (toPatRoot ccTP false ccT4).map (fun p => (Spec.attempt (ccSe [97, 98]
 /-- `EnvRel` is satisfiable with a non-trivial set table -/
 example : EnvRel ccTP (codeFromTree (mainCfg (ccInfo 1)) ccT4).2.sets
     (ccEnv (codeFromTree (mainCfg (ccInfo 1)) ccT4).2.sets (ccSe [97, 98])) (ccSe [97, 98]) := ccRel _ _
-/-- a tree outside every tier: a backreference is tier 4, `UpdateBumpalong` is in no tier -/
-example : InFrag 3 ccTP (ccInfo 2) (.capture 0 (-1) (.concat [.capture 1 (-1) (.char opOne false false 97), .ref false false 1])) = false ∧
+/-- `(?:ab|c)+d` on "abcabd" (tier 4, not tier 3): a greedy uncounted loop around an alternation -/
+example : InFrag 3 ccTP (ccInfo 1) ccT5 = false ∧ InFrag 4 ccTP (ccInfo 1) ccT5 = true ∧ treeWf (ccInfo 1) ccT5 = true := by
+  decide
+example : ccRun (ccInfo 1) ccT5 (ccEnv [] (ccSe [97, 98, 99, 97, 98, 100])) 0 200 = some (true, 6, [[0, 6]]) := by decide
+example : (toPatRoot ccTP false ccT5).map (fun p => Spec.attempt (ccSe [97, 98, 99, 97, 98, 100]) p false 0) =
+    some (some { pos := 6, caps := [(0, 0, 6)] }) := by decide
+
+/-- `(?:a{2}b){1,3}?c` on "aabaabc" (tier 4): a lazy counted loop, two iterations needed -/
+example : InFrag 4 ccTP (ccInfo 1) ccT6 = true ∧ treeWf (ccInfo 1) ccT6 = true := by decide
+example : ccRun (ccInfo 1) ccT6 (ccEnv [] (ccSe [97, 97, 98, 97, 97, 98, 99])) 0 200 = some (true, 7, [[0, 7]]) := by decide
+example : (toPatRoot ccTP false ccT6).map (fun p => Spec.attempt (ccSe [97, 97, 98, 97, 97, 98, 99]) p false 0) =
+    some (some { pos := 7, caps := [(0, 0, 7)] }) := by decide
+
+/-- `(a*)+b` on "aab" (tier 4): the body can match the empty string; the second iteration is empty and ends the loop,
+    its capture `(1, 2, 0)` is kept — on both sides -/
+example : InFrag 4 ccTP (ccInfo 2) ccT7 = true ∧ treeWf (ccInfo 2) ccT7 = true := by decide
+example : ccRun (ccInfo 2) ccT7 (ccEnv [] (ccSe [97, 97, 98])) 0 200 = some (true, 3, [[0, 3], [0, 2, 2, 0]]) := by decide
+example : (toPatRoot ccTP false ccT7).map (fun p => Spec.attempt (ccSe [97, 97, 98]) p false 0) =
+    some (some { pos := 3, caps := [(1, 0, 2), (1, 2, 0), (0, 0, 3)] }) := by decide
+/-- the hypotheses of `compile_correct_T4a` hold for this tree and input, so its conclusion does -/
+example : ∃ s0 s n, VM.init (emit (ccInfo 2) ccT7) (0 : Nat) = .ok s0 ∧
+    (∀ fuel, n ≤ fuel → (VM.run (emit (ccInfo 2) ccT7) (ccEnv [] (ccSe [97, 97, 98])) fuel s0).1 = .done s) ∧
+    VM.matched s = true :=
+  match h : toPatRoot ccTP false ccT7 with
+  | some pat =>
+    let ⟨s0, s, n, h1, h2, hag⟩ := compile_correct_T4a (ccInfo 2) ccT7 ccTP _ (ccSe [97, 97, 98]) pat 0 (by decide) (by decide) h
+      (ccRel _ _) (by decide) (by decide)
+    ⟨s0, s, n, h1, h2, by
+      rw [hag.verdict]
+      have : (toPatRoot ccTP false ccT7).map (fun p => (Spec.attempt (ccSe [97, 97, 98]) p false 0).isSome) = some true := by
+        decide
+      rw [h] at this
+      simpa using this⟩
+  | none => absurd h (by decide)
+
+/-- trees outside the proved tiers: `UpdateBumpalong` is tier 5, a backreference tier 6 -/
+example : InFrag 4 ccTP (ccInfo 2) (.capture 0 (-1) (.concat [.capture 1 (-1) (.char opOne false false 97), .ref false false 1])) = false ∧
     InFrag 4 ccTP (ccInfo 1) (.capture 0 (-1) (.concat [.bare opUpdateBumpalong, .char opOne false false 97])) = false := by decide
 
 end compiler
